@@ -27,6 +27,14 @@ var c02GuardOff string
 
 type c02WitnessStop struct{}
 
+// trace records a history line in the replay trace (and prints it when VERIF_C02_DUMP is set).
+func (w *c02World) trace(f string, a ...any) {
+	w.c.Trace(f, a...)
+	if os.Getenv("VERIF_C02_DUMP") != "" {
+		fmt.Printf("TRACE "+f+"\n", a...)
+	}
+}
+
 // fail reports a violation: through the vt context in a property run, into the witness
 // result in a witness run.
 func (w *c02World) fail(f string, a ...any) {
@@ -399,12 +407,12 @@ func (w *c02World) step(tag string) c02StepResult {
 		}
 	}
 	if w.c != nil {
-		w.c.Trace("[%s] reconcile: %d calls (%d mutating), %d status writes, %d write errors, err=%v", tag, len(res.calls), res.mutations, w.writes, w.writeErrs, err)
+		w.trace("[%s] reconcile: %d calls (%d mutating), %d status writes, %d write errors, err=%v", tag, len(res.calls), res.mutations, w.writes, w.writeErrs, err)
 		for i := range res.calls {
-			w.c.Trace("    %s", res.calls[i].String())
+			w.trace("    %s", res.calls[i].String())
 		}
 		if w.writes > 0 {
-			w.c.Trace("    record: %s", c02RenderRecord(cur.Status.NetworkInterfaces))
+			w.trace("    record: %s", c02RenderRecord(cur.Status.NetworkInterfaces))
 		}
 	}
 
@@ -420,25 +428,25 @@ func (w *c02World) step(tag string) c02StepResult {
 			// the controller was told about resources a failed record write then lost, and
 			// it did not resynchronise before asking for more
 			w.c.Label("known:C08-lost-write-no-resync")
-			w.c.Trace("    (known C08-lost-write-no-resync: %s; %s)", lost, m.msg)
+			w.trace("    (known C08-lost-write-no-resync: %s; %s)", lost, m.msg)
 		case strings.HasPrefix(m.kind, "assign:") && c08NilFamily(prev, m.kind) && c08Known("C08-sync-merge-nil-map"):
 			// the record holds no address map of that family for the interface, so the
 			// addresses the full sync was told about were dropped by mergeIPMap
 			w.c.Label("known:C08-sync-merge-nil-map")
-			w.c.Trace("    (known C08-sync-merge-nil-map: %s)", m.msg)
+			w.trace("    (known C08-sync-merge-nil-map: %s)", m.msg)
 		case strings.HasPrefix(m.kind, "assign:") && c08EmptyKey(prev, m.kind) && c08Known("C08-eflo-partial-key-collision"):
 			// EFLO: half-created addresses are recorded under the empty address key, a second
 			// one replaces nothing and is forgotten
 			w.c.Label("known:C08-eflo-partial-key-collision")
-			w.c.Trace("    (known C08-eflo-partial-key-collision: %s)", m.msg)
+			w.trace("    (known C08-eflo-partial-key-collision: %s)", m.msg)
 		case m.kind == "surplus" && c08Known("C08-negative-slot-count"):
 			// more interfaces of one kind than the flavor admits make getEniOptions hand
 			// the negative remainder to the next kind
 			w.c.Label("known:C08-negative-slot-count")
-			w.c.Trace("    (known C08-negative-slot-count: %s)", m.msg)
+			w.trace("    (known C08-negative-slot-count: %s)", m.msg)
 		case m.kind == "perkind" && emptyMode && c08Known("C08-rollback-record-lacks-mode"):
 			w.c.Label("known:C08-rollback-record-lacks-mode")
-			w.c.Trace("    (known C08-rollback-record-lacks-mode: %s)", m.msg)
+			w.trace("    (known C08-rollback-record-lacks-mode: %s)", m.msg)
 		default:
 			hard = append(hard, m.msg)
 		}
@@ -675,7 +683,7 @@ func (w *c02World) apply(i int, o c02Op) {
 			slot := (o.A + j) % len(w.s.Slots)
 			if w.live[slot] == nil {
 				p := w.createPod(slot, "", "")
-				w.c.Trace("[%s] pod %s created uid=%s", tag, p.name, p.uid)
+				w.trace("[%s] pod %s created uid=%s", tag, p.name, p.uid)
 			}
 		}
 		if o.Kind == "burst" {
@@ -690,7 +698,7 @@ func (w *c02World) apply(i int, o c02Op) {
 		w.must(w.base.Delete(w.ctx, &corev1.Pod{ObjectMeta: metav1.ObjectMeta{Name: p.name, Namespace: c02NS}}))
 		delete(w.live, p.slot)
 		w.gone = append(w.gone, &c02Gone{uid: p.uid})
-		w.c.Trace("[%s] pod %s (uid %s) deleted", tag, p.name, p.uid)
+		w.trace("[%s] pod %s (uid %s) deleted", tag, p.name, p.uid)
 	case "exit":
 		l := w.liveSorted()
 		if len(l) == 0 {
@@ -702,7 +710,7 @@ func (w *c02World) apply(i int, o c02Op) {
 		pod.Status.Phase = corev1.PodSucceeded
 		w.must(w.base.Status().Update(w.ctx, pod))
 		w.gone = append(w.gone, &c02Gone{uid: p.uid})
-		w.c.Trace("[%s] pod %s sandbox exited", tag, p.name)
+		w.trace("[%s] pod %s sandbox exited", tag, p.name)
 	case "cniadd":
 		// the daemon serves the ADD from the binding it reads in the record; the kubelet
 		// then publishes the address(es) in the pod status
@@ -741,7 +749,7 @@ func (w *c02World) apply(i int, o c02Op) {
 		w.must(w.base.Status().Update(w.ctx, pod))
 		w.setRuntime(p.uid, w.podID(p.slot), networkv1beta1.CNIStatusInitial)
 		p.cniAdd = true
-		w.c.Trace("[%s] pod %s ADD done, reports %s %s", tag, p.name, v4, v6)
+		w.trace("[%s] pod %s ADD done, reports %s %s", tag, p.name, v4, v6)
 	case "reportdeleted":
 		var cand []*c02Gone
 		for _, g := range w.gone {
@@ -755,7 +763,7 @@ func (w *c02World) apply(i int, o c02Op) {
 		g := cand[o.A%len(cand)]
 		g.reported = true
 		w.setRuntime(g.uid, "", networkv1beta1.CNIStatusDeleted)
-		w.c.Trace("[%s] daemon reports uid %s deleted", tag, g.uid)
+		w.trace("[%s] daemon reports uid %s deleted", tag, g.uid)
 	case "reconcile":
 		for j := 0; j < max(o.B, 1); j++ {
 			w.step(tag)
@@ -766,29 +774,29 @@ func (w *c02World) apply(i int, o c02Op) {
 	case "restart":
 		w.restart()
 		w.resetKnowledgeFromRecord()
-		w.c.Trace("[%s] controller restarted", tag)
+		w.trace("[%s] controller restarted", tag)
 		w.c.Label("op:restart")
 	case "apifault":
 		for j := 0; j < max(o.B, 1); j++ {
 			w.apiFaults = append(w.apiFaults, o.API)
 		}
-		w.c.Trace("[%s] api fault armed: %s x%d", tag, o.API, o.B)
+		w.trace("[%s] api fault armed: %s x%d", tag, o.API, o.B)
 		w.c.Label("apifault:" + o.API)
 	case "cloudfault":
 		w.cloud.Arm(o.Faults...)
-		w.c.Trace("[%s] cloud faults armed: %+v", tag, o.Faults)
+		w.trace("[%s] cloud faults armed: %+v", tag, o.Faults)
 	case "episode":
 		w.cloud.Arm(o.Faults...)
 		if o.API != "" {
 			w.apiFaults = append(w.apiFaults, o.API)
 			w.c.Label("apifault:" + o.API)
 		}
-		w.c.Trace("[%s] faults armed: %+v api=%q", tag, o.Faults, o.API)
+		w.trace("[%s] faults armed: %+v api=%q", tag, o.Faults, o.API)
 		for j := 0; j < o.B; j++ {
 			slot := (o.A + j) % len(w.s.Slots)
 			if w.live[slot] == nil {
 				p := w.createPod(slot, "", "")
-				w.c.Trace("[%s] pod %s created uid=%s", tag, p.name, p.uid)
+				w.trace("[%s] pod %s created uid=%s", tag, p.name, p.uid)
 			}
 		}
 		for j := 0; j < max(o.C, 1); j++ {
@@ -824,7 +832,7 @@ func (w *c02World) drift(tag string, o c02Op) {
 			opts.Type = aliyunClient.ENITypeTrunk
 		}
 		e := w.cloud.AddENI(opts)
-		w.c.Trace("[%s] drift: foreign interface %s attached (%s, tags %v)", tag, e.ID, e.Type, opts.Tags)
+		w.trace("[%s] drift: foreign interface %s attached (%s, tags %v)", tag, e.ID, e.Type, opts.Tags)
 		w.c.Label("drift:addeni")
 		return
 	}
@@ -843,20 +851,20 @@ func (w *c02World) drift(tag string, o c02Op) {
 		}
 		ip := list[o.B%len(list)]
 		if w.cloud.DriftRemoveIP(e.ID, ip.Addr) {
-			w.c.Trace("[%s] drift: %s removed from %s", tag, ip.Addr, e.ID)
+			w.trace("[%s] drift: %s removed from %s", tag, ip.Addr, e.ID)
 			w.c.Label("drift:rmip")
 		}
 	case "rmeni":
 		w.cloud.DriftDeleteENI(e.ID)
-		w.c.Trace("[%s] drift: interface %s deleted", tag, e.ID)
+		w.trace("[%s] drift: interface %s deleted", tag, e.ID)
 		w.c.Label("drift:rmeni")
 	case "detach":
 		w.cloud.DriftDetachENI(e.ID)
-		w.c.Trace("[%s] drift: interface %s detached", tag, e.ID)
+		w.trace("[%s] drift: interface %s detached", tag, e.ID)
 		w.c.Label("drift:detach")
 	case "addip":
 		got := w.cloud.DriftAddIP(e.ID, 1+o.B%3, o.C == 1 && w.s.Node.V6)
-		w.c.Trace("[%s] drift: %v added to %s", tag, got, e.ID)
+		w.trace("[%s] drift: %v added to %s", tag, got, e.ID)
 		w.c.Label("drift:addip")
 	}
 }
@@ -1250,9 +1258,9 @@ func c02RunLoop(c *vt.Ctx, s c02Scenario) { c02RunLoopW(c, s, nil) }
 func c02RunLoopW(c *vt.Ctx, s c02Scenario, witness *string) {
 	w := c02NewWorld(c, s)
 	w.witness = witness
-	c.Trace("node %+v", s.Node)
-	c.Trace("flavor %+v", w.spec.Flavor)
-	c.Trace("initial record: %s", c02RenderRecord(w.readNode().Status.NetworkInterfaces))
+	w.trace("node %+v", s.Node)
+	w.trace("flavor %+v", w.spec.Flavor)
+	w.trace("initial record: %s", c02RenderRecord(w.readNode().Status.NetworkInterfaces))
 	for i, o := range s.Ops {
 		w.apply(i, o)
 	}
